@@ -118,8 +118,8 @@ class Evidence:
 
 def save_replay(prop, name, content):
     d = os.path.join(REPLAYS, prop)
-    os.makedirs(d, exist_ok=True)
     p = os.path.join(d, name)
+    os.makedirs(os.path.dirname(p), exist_ok=True)
     mode = 'wb' if isinstance(content, bytes) else 'w'
     with open(p, mode) as fh:
         fh.write(content)
